@@ -593,7 +593,7 @@ func vValidateClass(msg string) string {
 		return "validate:" + kind + ":prefix"
 	case strings.HasSuffix(msg, "key thumbprint does not match ID"):
 		return "validate:vm:thumbprint"
-	case strings.Contains(msg, "unable to get JWK"):
+	case strings.Contains(msg, "JWK"), strings.Contains(msg, "publicKeyJwk"):
 		return "validate:vm:jwk"
 	case strings.HasSuffix(msg, resolver.ErrDuplicateService.Error()):
 		return "validate:svc:duplicate-type"
@@ -811,6 +811,19 @@ func (n *vNode) observe(ps *vProbeSet) string {
 		p.lit("KID " + kid + " " + strings.Join(ans, ","))
 	}
 	return p.render()
+}
+
+// the part of the observable state that does not come from the database file alone
+func (n *vNode) observeCheap() string {
+	cc, _ := n.store.ConflictedCount()
+	dc, _ := n.store.DocumentCount()
+	var conf []string
+	_ = n.store.Conflicted(func(doc did.Document, md resolver.DocumentMetadata) error {
+		conf = append(conf, doc.ID.String()+"@"+md.Hash.String()[:8]+"/"+vDigest(doc))
+		return nil
+	})
+	sort.Strings(conf)
+	return fmt.Sprintf("cc=%d dc=%d conflicted=%s", cc, dc, strings.Join(conf, ","))
 }
 
 func (n *vNode) resolveKeyClass(kid string, refs []hash.SHA256Hash) (out string) {
@@ -1121,6 +1134,35 @@ func (g *vGen) randomEdit(s *vDocSpec) {
 	}
 }
 
+// embedded verification methods inside capabilityInvocation (not listed under verificationMethod)
+func (g *vGen) embedCapInv(s *vDocSpec) {
+	var k *vKey
+	holder := s.ID
+	if o := g.someDid(func(d *vDid) bool { return d.latest().spec.ID != s.ID }); o != nil && g.rng.Intn(2) == 0 {
+		k, holder = o.key, o.latest().spec.ID // a key that another DID document lists as verification method
+	} else {
+		k = g.freshKey()
+	}
+	var vm vVMSpec
+	switch g.rng.Intn(6) {
+	case 0, 1:
+		vm = vVMSpec{ID: s.ID + "#" + k.b64, Key: k}
+	case 2:
+		vm = vVMSpec{ID: holder + "#" + k.b64, Key: k, Ctrl: holder} // id prefixed by another DID
+	case 3:
+		vm = vVMSpec{ID: s.ID + "#not-the-thumbprint", Key: k}
+	case 4:
+		vm = vVMSpec{ID: s.ID + "#nojwk-" + k.b64[:6]} // no publicKeyJwk
+	case 5:
+		vm = vVMSpec{ID: s.ID + "#badjwk-" + k.b64[:6], RawJwk: map[string]interface{}{"kty": "EC", "crv": "P-256"}}
+	}
+	if g.rng.Intn(3) == 0 {
+		s.Rels["capabilityInvocation"] = append([]interface{}{vm}, s.Rels["capabilityInvocation"]...)
+	} else {
+		s.Rels["capabilityInvocation"] = append(s.Rels["capabilityInvocation"], vm)
+	}
+}
+
 func vDeactivate(s *vDocSpec) {
 	s.Ctrl = nil
 	s.VMs = nil
@@ -1131,7 +1173,8 @@ func vDeactivate(s *vDocSpec) {
 // one validator rule (or parsing requirement) broken in an otherwise valid document
 var vViolations = []string{"no-did-context", "vm-no-fragment", "vm-duplicate-id", "vm-foreign-prefix", "vm-thumbprint-mismatch", "vm-bad-jwk",
 	"vm-blank-type", "vm-no-controller", "svc-no-fragment", "svc-duplicate-id", "svc-foreign-prefix", "svc-duplicate-type", "svc-blank-type",
-	"svc-no-endpoint", "svc-number-endpoint", "rel-unknown-reference", "rel-embedded-blank-type", "not-json"}
+	"svc-no-endpoint", "svc-number-endpoint", "rel-unknown-reference", "rel-embedded-blank-type", "not-json",
+	"vm-no-jwk", "vm-empty-key-fragment", "ctx-only-object"}
 
 func (g *vGen) violate(which string, s *vDocSpec) {
 	other := "did:nuts:" + g.keys[0].b58
@@ -1184,6 +1227,14 @@ func (g *vGen) violate(which string, s *vDocSpec) {
 		s.Rels["keyAgreement"] = append(s.Rels["keyAgreement"], vVMSpec{ID: s.ID + "#" + k.b64, Key: k, Type: " "})
 	case "not-json":
 		s.RawAdd = map[string]interface{}{"id": 5}
+	case "vm-no-jwk": // JsonWebKey2020 without publicKeyJwk: VerificationMethod.JWK() returns (nil, nil)
+		k := g.freshKey()
+		s.VMs = append(s.VMs, vVMSpec{ID: s.ID + "#" + k.b64})
+	case "vm-empty-key-fragment":
+		k := g.freshKey()
+		s.VMs = append(s.VMs, vVMSpec{ID: s.ID + "#", Key: k})
+	case "ctx-only-object": // the DID context is present only inside an object (JSON-LD graph): not counted by go-did
+		s.RawAdd = map[string]interface{}{"@context": []interface{}{map[string]interface{}{"@base": vDidCtx}, vJwsCtx}}
 	}
 }
 
@@ -1307,7 +1358,7 @@ func (g *vGen) stepRandom() *vPair {
 			return g.create("violate:"+which, nil, func(s *vDocSpec, _ *vKey) { g.violate(which, s) }, nil)
 		}
 		return g.update(vUpdateOpts{kind: "violate:" + which, target: active, next: func(s *vDocSpec) { g.violate(which, s) }})
-	case r < 95: // transaction integrity
+	case r < 94: // transaction integrity
 		switch g.rng.Intn(3) {
 		case 0:
 			return g.create("integrity:type", nil, nil, func(s *vSignSpec, _ *vKey) { s.ptype = "application/other+json" })
@@ -1316,6 +1367,33 @@ func (g *vGen) stepRandom() *vPair {
 		default:
 			return g.update(vUpdateOpts{kind: "integrity:empty-hash", target: active, next: g.randomEdit, sign: func(s *vSignSpec) { s.emptyHash = true }})
 		}
+	case r < 96: // an embedded capabilityInvocation method is added by a legitimate update
+		return g.update(vUpdateOpts{kind: "update-embed-capinv", target: active, next: g.embedCapInv})
+	case r < 97: // update signed with a key that the succeeded version lists only as embedded capabilityInvocation method
+		if d := g.someDid(func(d *vDid) bool {
+			for _, it := range d.latest().spec.Rels["capabilityInvocation"] {
+				if vm, ok := it.(vVMSpec); ok && vm.Key != nil {
+					return true
+				}
+			}
+			return false
+		}); d != nil {
+			for _, it := range d.latest().spec.Rels["capabilityInvocation"] {
+				if vm, ok := it.(vVMSpec); ok && vm.Key != nil {
+					key := vm.Key
+					kid := vm.ID
+					var extra []hash.SHA256Hash
+					if o := g.dids[key.did]; o != nil && o.latest() != nil { // the key's own DID lists it as verification method
+						kid = key.did + "#" + key.b64
+						extra = []hash.SHA256Hash{o.latest().ref}
+					}
+					return g.update(vUpdateOpts{kind: "update-by-embedded-capinv-key", target: d, next: g.randomEdit, signer: func() (*vKey, string, []hash.SHA256Hash) {
+						return key, kid, extra
+					}})
+				}
+			}
+		}
+		return g.update(vUpdateOpts{kind: "update-embed-capinv", target: active, next: g.embedCapInv})
 	case r < 98: // odd key ids
 		return g.update(vUpdateOpts{kind: "update-odd-kid", target: active, next: g.randomEdit, signer: func() (*vKey, string, []hash.SHA256Hash) {
 			k := active.key
@@ -1441,6 +1519,7 @@ func (r *vRunner) runHistory(h int, label string, noVerify bool, pairs []*vPair,
 	}
 	emitOp(vOp{Op: "hist", H: h, Label: label, NoVerify: noVerify, Probes: ps})
 	prevObs := n.observe(ps)
+	prevCheap := n.observeCheap()
 	fmt.Fprintf(r.implW, "hist %d %s\n", h, prevObs)
 	var classes []string
 	for i, p := range pairs {
@@ -1448,7 +1527,14 @@ func (r *vRunner) runHistory(h int, label string, noVerify bool, pairs []*vPair,
 		notified := n.notified
 		class := n.deliver(p)
 		after := n.dbDigest()
-		obs := n.observe(ps)
+		// Resolve and the key resolver read the database only: with byte-identical content only the in-memory
+		// state (conflicted cache) and the counters are re-read; otherwise everything is observed again
+		cheap := n.observeCheap()
+		obs := prevObs
+		if before != after || cheap != prevCheap {
+			obs = n.observe(ps)
+		}
+		prevCheap = cheap
 		classes = append(classes, class)
 		view := vTxViewOf(p.tx, p.Signer)
 		emitOp(vOp{Op: "pair", H: h, I: i, Tx: &view, Doc: vParsePayload(p.payload), Raw: p})
@@ -1596,6 +1682,14 @@ func vScenario(g *vGen, kind string, run func(p *vPair) bool) {
 		run(g.update(vUpdateOpts{kind: "rk:update-removed-key", target: d, next: g.randomEdit, signer: func() (*vKey, string, []hash.SHA256Hash) { return gone.Key, gone.ID, nil }}))
 		// ... and an update that forks from the version that still listed it (authorised by design, merged as a conflict)
 		run(g.update(vUpdateOpts{kind: "rk:fork-from-listing-version", target: d, from: &v0, next: g.randomEdit, signer: func() (*vKey, string, []hash.SHA256Hash) { return gone.Key, gone.ID, nil }}))
+	case kind == "embedded-capinv":
+		run(g.create("ec:create-other", nil, nil, nil))
+		run(g.create("ec:create", nil, nil, nil))
+		d := g.dids[g.order[len(g.order)-1]]
+		for i := 0; i < 4; i++ {
+			run(g.update(vUpdateOpts{kind: "update-embed-capinv", target: d, next: g.embedCapInv}))
+			run(g.update(vUpdateOpts{kind: "ec:update-after-embed", target: d, next: g.randomEdit}))
+		}
 	case kind == "validator-sweep":
 		run(g.create("vs:create", nil, nil, nil))
 		d := g.dids[g.order[len(g.order)-1]]
@@ -1689,7 +1783,7 @@ func TestVerifC09(t *testing.T) {
 	}
 	rng := rand.New(rand.NewSource(seed*7919 + 9))
 	scripted := []string{"chain0", "chain1", "chain2", "chain3", "chain4", "chain5", "chain6", "cycle1", "cycle2", "cycle3", "cycle5",
-		"deactivated-controller", "removed-key", "validator-sweep"}
+		"deactivated-controller", "removed-key", "validator-sweep", "embedded-capinv"}
 	for h := 0; h < nHist; h++ {
 		kind := "mixed"
 		if h%2 == 0 {
@@ -1697,8 +1791,8 @@ func TestVerifC09(t *testing.T) {
 		}
 		steps := 6 + rng.Intn(10)
 		if kind == "validator-sweep" {
-			steps = 20
+			steps = 24
 		}
-		r.genHistory(h, rand.New(rand.NewSource(rng.Int63())), steps, kind, h%4 >= 2)
+		r.genHistory(h, rand.New(rand.NewSource(rng.Int63())), steps, kind, rng.Intn(2) == 0)
 	}
 }
